@@ -35,7 +35,20 @@ RULE = ("left documents x merge paths x right documents x policies.  Small part:
         "stood there and the right document; a created path holds the right document; outcome class (document, merge error, "
         "YAML Path error) equals the model's, any other exception is a violation.  Correspondence: Merger.data equals the "
         "Lean mergeAt exactly.  A sample runs through the yaml-merge main() with real files: an output file exists iff the "
-        "merge succeeded.  strip_path_prefix is compared with the model on a grid of key paths.  Random part: 160 000 cases "
+        "merge succeeded; 600 more runs use a MULTI-DOCUMENT left file (2-4 documents) in each --multi-doc-mode (condense_all, "
+        "merge_across, matrix_merge) at a merge path that matches nothing and cannot be created (a Scalar in the way, a search that "
+        "matches nothing, an index into a Scalar) in exactly one document - the first, a middle or the last one - (also none, two, "
+        "all): when the library's own Merger refuses one of the merges the run consists of, the tool must exit non-zero and write no "
+        "output file; when all succeed, exit 0 and the file.  Integer keys: left documents in which mapping keys are integers (0 1 2 22 443 8080 -1), merge paths "
+        "written with the digits that end at / pass through such a key (the node named is the single target), right documents "
+        "of every root kind; judged like every other case (FRAME incl. the key lists of the containers above the target — no new "
+        "sibling key —, TARGETS, outcome class).  Several parents, missing final key: a list or mapping of 2-5 records (some "
+        "holding the key already, some children that are no mappings) standing at the root / below string or integer keys, a "
+        "prefix that selects several of them (attribute / key-name / regex / has_child searches, `*`), a tail of one or two "
+        "missing keys, right documents that are mappings holding arrays / arrays-of-hashes, arrays, arrays-of-hashes, scalars; "
+        "judged on the real code alone: where the real optional query (run on a twin) creates the tail, the merged document "
+        "holds exactly the right-hand document there, and apart from the created nodes (and the targets that existed, which are "
+        "not judged in this part) it equals the left document as data; the merge must not be refused.  strip_path_prefix is compared with the model on a grid of key paths.  Random part: 160 000 cases "
         "(quick) / 300 000 (thorough; trimmed from 2 000 000 - a random case costs ~12 small-layer cases and the thorough run needed "
         "> 14 000 CPU-seconds, > 45 min on the shared machine; the complete small layers are untouched).  distinct_nontrivial = "
         "distinct (l, path, r, policy) cases whose result differs from the left document.")
@@ -111,7 +124,8 @@ def mg_show(d):
     def plain(j):
         k = j["k"]
         if k == "map":
-            return {str(kk): plain(v) for kk, v in j["e"]}
+            return {(str(kk) if isinstance(kk, int) else "'%s'" % kk if kk.lstrip("-").isdigit() else kk): plain(v)
+                    for kk, v in j["e"]}
         if k == "seq":
             return [plain(v) for v in j["i"]]
         if k == "set":
@@ -153,6 +167,9 @@ def real_cfg(case):
 def plan_for(case):
     """What the optional query does on a twin of the left document.
     -> ("segs", segs) | ("targets", addrs) | ("skip", why) | ("qerr", class)."""
+    if case.get("targets") is not None:
+        # an exact KEY / INDEX path written by the generator (through integer keys): the node it names is the target
+        return ("targets", case["targets"])
     if case.get("segs") is not None:
         return ("segs", case["segs"])
     from yamlpath import Processor
@@ -374,7 +391,15 @@ def run_cases(cases):
     def cnt(k, n=1):
         hist[k] = hist.get(k, 0) + n
     prepared, reqs = [], []
+    direct_findings = []
     for case in cases:
+        if case.get("cat") == "mcreate":
+            try:
+                judge_mcreate(case, stats, cnt, direct_findings)
+            except codec.OutOfModel:
+                stats["oom"] += 1
+                cnt("mcreate:skipped:oom")
+            continue
         try:
             plan = plan_for(case)
         except Exception as e:  # noqa
@@ -407,8 +432,9 @@ def run_cases(cases):
             cnt("skipped:tv")
             continue
         prepared.append((case, plan, None, len(reqs) - 1))
-    model = drv.ask(reqs)
-    findings, samples, nontrivial = [], [], set()
+    model = drv.ask(reqs) if reqs else []
+    findings, samples, nontrivial = list(direct_findings), [], set()
+    nontrivial.update(stats.pop("_nt", ()))
     for case, plan, im, mi in prepared:
         if mi is None:
             if "ok" in im:
@@ -625,6 +651,290 @@ def rand_case(rng):
     return case
 
 
+# --------------------------------------------------------------------------- integer-keyed mappings
+
+INTKEYS = [0, 1, 2, 22, 8080, -1, 443]
+
+
+def intkeyed(rng, d, p=0.5):
+    """A copy of d in which some mapping keys are integers (never next to their own digits as a text key)."""
+    k = d["k"]
+    if k == "map":
+        es, used = [], set(str(x[0]) for x in d["e"])
+        hit = rng.random() < 0.7
+        for kk, v in d["e"]:
+            nk = kk
+            if hit and rng.random() < p:
+                c = rng.choice(INTKEYS)
+                if str(c) not in used:
+                    used.add(str(c))
+                    nk = c
+            es.append([nk, intkeyed(rng, v, p)])
+        return {"k": "map", "e": es}
+    if k == "seq":
+        return {"k": "seq", "i": [intkeyed(rng, v, p) for v in d["i"]]}
+    return d
+
+
+def plain_key(v):
+    return isinstance(v, int) or (isinstance(v, str) and v.isalnum() and not v.isdigit())
+
+
+def intkey_case(rng):
+    """A left document with integer-keyed mappings, a merge path ending at / passing through such a key."""
+    l = intkeyed(rng, rand_left(rng))
+    nodes = [(a, n) for a, n in all_nodes(l) if a and all(t == "i" or plain_key(v) for t, v in a)
+             and any(t == "k" and isinstance(v, int) for t, v in a)]
+    ends = [(a, n) for a, n in nodes if a[-1][0] == "k" and isinstance(a[-1][1], int)]
+    through = [(a, n) for a, n in nodes if not (a[-1][0] == "k" and isinstance(a[-1][1], int))]
+    a, n = rng.choice(ends if ends and (rng.random() < 0.6 or not through) else through)
+    segs = [[t, v] for t, v in a]
+    y = rng.random()
+    if y < 0.5:
+        r = mg.mutate(rng, n, 2)
+    elif y < 0.7:
+        r = mg.S(rng.choice(SCAL_R))
+    else:
+        r = mg.rand_doc(rng, rng.choice([0, 1, 1, 2]), rng.choice(["map", "seq", "aoh", "scalar", None]))
+    cfg = dict(rng.choice(mg.ALL_POLICIES)) if rng.random() < 0.7 else {}
+    return {"l": l, "r": r, "path": seg_path(segs, slash=rng.random() < 0.5), "segs": None, "targets": [segs], "cfg": cfg,
+            "cat": "int-end" if isinstance(a[-1][1], int) and a[-1][0] == "k" else "int-through", "via": "kw"}
+
+
+# --------------------------------------------------------------------------- several parents, missing final key (direct)
+
+MC_KEYS = ["type", "name", "id", "a", "b", "n"]
+MC_TYPES = ["web", "web", "db", "web", "x"]
+
+
+def mc_child(rng):
+    x = rng.random()
+    if x < 0.05:
+        return mg.rand_scalar(rng)          # a non-hash child beside the hashes
+    if x < 0.08:
+        return mg.L(*[mg.rand_scalar(rng) for _ in range(rng.randint(0, 2))])
+    es = []
+    if rng.random() < 0.85:
+        es.append(("type", mg.S(rng.choice(MC_TYPES))))
+    if rng.random() < 0.6:
+        es.append(("name", mg.S(rng.choice(["a", "b", "ab", "c"]))))
+    for k in rng.sample(["id", "a", "b", "n"], rng.randint(0, 2)):
+        es.append((k, mg.rand_doc(rng, rng.choice([0, 0, 1]))))
+    if rng.random() < 0.12:
+        es.append((rng.choice(["cfg", "new"]), mg.rand_doc(rng, rng.choice([0, 1, 1]))))     # the final key exists here
+    rng.shuffle(es)
+    return mg.M(*es)
+
+
+def mc_rhs(rng):
+    x = rng.random()
+    arr = lambda: mg.L(*[mg.rand_scalar(rng) for _ in range(rng.randint(1, 3))])  # noqa
+    aoh = lambda: mg.L(*[mg.rand_record(rng, 1) for _ in range(rng.randint(1, 2))])  # noqa
+    if x < 0.5:
+        es = [(rng.choice(["ports", "a", "l"]), arr() if rng.random() < 0.7 else aoh())]
+        for k in rng.sample(["owner", "b", "id", "sub"], rng.randint(0, 2)):
+            es.append((k, mg.rand_doc(rng, rng.choice([0, 1, 2]))))
+        rng.shuffle(es)
+        return mg.M(*es)
+    if x < 0.68:
+        return arr()
+    if x < 0.82:
+        return aoh()
+    if x < 0.92:
+        return mg.rand_doc(rng, rng.choice([1, 2]))
+    return mg.S(rng.choice([1, 5, 0, "x", "new", True, False, 2.5, "long text"]))
+
+
+def mcreate_case(rng):
+    """Several parents selected by a wildcard / search prefix, the final key missing under (most of) them."""
+    kids = [mc_child(rng) for _ in range(rng.randint(2, 5))]
+    if rng.random() < 0.6:
+        cont = mg.L(*kids)
+    else:
+        names = rng.sample(["k1", "k2", "web", "app", "s", "t", 1, 22], len(kids))
+        cont = mg.M(*zip(names, kids))
+    # where the container stands
+    where = rng.choice([[], ["servers"], ["servers"], ["x", "apps"], [8080], ["x", 1]])
+    l = cont
+    for k in reversed(where):
+        sib = [(s, mg.rand_doc(rng, rng.choice([0, 1, 2]))) for s in rng.sample(["other", "o2", "z9"], rng.randint(0, 2))]
+        es = sib + [(k, l)]
+        rng.shuffle(es)
+        l = mg.M(*es)
+    base = seg_path([["k", k] for k in where])
+    if cont["k"] == "seq":
+        sel = rng.choice(["*", "[type=web]", "[type=web]", "[type=web]", "[has_child(type)]", "[!has_child(cfg)]", "[name^a]",
+                          "[type!=db]", "[.!=zz]", "[id>0]", "[type=~/^w/]"])
+    else:
+        sel = rng.choice(["*", "[.!=zz]", "[.!=zz]", "[.=~/./]", "[.^k]", "[.$2]", "[.!=web]", "[has_child(type)]"])
+    if where and cont["k"] == "map" and rng.random() < 0.12:
+        sel, prefix = "", base              # one parent, named exactly (possibly by an integer key)
+    elif sel.startswith("[") or not where:
+        prefix = (base if where else "") + sel
+    else:
+        prefix = base + "." + sel
+    tail = rng.choice([["cfg"], ["cfg"], ["new"], ["new"], ["cfg", "sub"], ["z", "y"]])
+    path = prefix + "." + ".".join(tail)
+    slash = rng.random() < 0.3 and "[." not in sel and "=~" not in sel
+    if slash:
+        path = "/" + path.replace(".", "/")
+    cfg = dict(rng.choice(mg.ALL_POLICIES)) if rng.random() < 0.6 else {}
+    return {"l": l, "r": mc_rhs(rng), "path": path, "prefix": "/" + prefix.replace(".", "/") if slash else prefix,
+            "tail": tail, "segs": None, "cfg": cfg, "cat": "mcreate", "via": "kw"}
+
+
+def set_at(j, addr, node):
+    """A copy of j with `node` standing at addr (a missing last key is appended to its mapping)."""
+    if not addr:
+        return node
+    (t, v), rest = addr[0], addr[1:]
+    if j["k"] == "map" and t == "k":
+        es, done = [], False
+        for kk, c in j["e"]:
+            if kk == v and isinstance(kk, str) == isinstance(v, str):
+                es.append([kk, set_at(c, rest, node)])
+                done = True
+            else:
+                es.append([kk, c])
+        if not done:
+            if rest:
+                raise KeyError(v)
+            es.append([v, node])
+        return {"k": "map", "e": es}
+    if j["k"] == "seq" and t == "i":
+        return {"k": "seq", "i": [set_at(c, rest, node) if i == v else c for i, c in enumerate(j["i"])]}
+    raise KeyError(v)
+
+
+def first_diff(a, b, pre=()):
+    if a is None or b is None or a["k"] != b["k"]:
+        return pre
+    if a["k"] == "map":
+        da, db = {mg._hk(x[0]): x for x in a["e"]}, {mg._hk(x[0]): x for x in b["e"]}
+        if da.keys() != db.keys():
+            return pre
+        for h in da:
+            if not mg.content_eq(da[h][1], db[h][1]):
+                return first_diff(da[h][1], db[h][1], pre + (("k", da[h][0]),))
+        return None
+    if a["k"] == "seq":
+        if len(a["i"]) != len(b["i"]):
+            return pre
+        for i, (x, y) in enumerate(zip(a["i"], b["i"])):
+            if not mg.content_eq(x, y):
+                return first_diff(x, y, pre + (("i", i),))
+        return None
+    return None if mg.content_eq(a, b) else pre
+
+
+MASK = {"k": "str", "v": "<existing target: not judged here>"}
+
+
+def judge_mcreate(case, stats, cnt, findings):
+    """The clauses of C11 on the real code alone, for a merge path whose prefix selects several mappings and whose tail is a
+    missing key below them: every created node holds exactly the right-hand document; everything else is unchanged."""
+    l, r, tail = case["l"], case["r"], case["tail"]
+    if r["k"] == "null":
+        stats["oom"] += 1
+        return cnt("mcreate:skipped:null-rhs")      # an empty right-hand document changes nothing (judged in the main part)
+    got = ed.gather(l, case["prefix"], "set")
+    if got[0] != "ok":
+        stats["oom"] += 1
+        return cnt("mcreate:skipped:prefix-" + got[0])
+    parents = [tup(a) for a, is_name in got[1] if not is_name]
+    if len(parents) != len(got[1]) or len(set(parents)) != len(parents) or any(
+            a != b and is_prefix(a, b) for a in parents for b in parents):
+        stats["oom"] += 1
+        return cnt("mcreate:skipped:parents-nested-or-twice")
+    pnodes = [get_at(l, a) for a in parents]
+    if any(n is None or n["k"] != "map" for n in pnodes):
+        stats["oom"] += 1
+        return cnt("mcreate:skipped:non-hash-parent-selected")
+    # what the optional query (seeded with the right-hand document) creates is the library's notion of "can be created"
+    # (C09's subject; below `*` nothing is created): it is taken from a run of the real query on a twin document
+    from yamlpath import Processor
+    twin, rtwin = ed.build(l), ed.build(r)
+    q = ed.guarded(lambda: list(Processor(core.quiet_logger(), twin).get_nodes(case["path"], default_value=rtwin)))
+    if q[0] != "ok":
+        stats["oom"] += 1
+        return cnt("mcreate:skipped:query-" + q[0].split(":")[0])
+    after = codec.node_to_json(twin, anchors=False)
+    created, existing, lacking = [], [], 0
+    for a, n in zip(parents, pnodes):
+        has = any(kk == tail[0] for kk, _ in n["e"])
+        if not has:
+            lacking += 1
+            if get_at(after, a + tuple(("k", k) for k in tail)) is not None:
+                created.append(a)
+        elif len(tail) == 1:
+            existing.append(a + (("k", tail[0]),))
+        else:
+            stats["oom"] += 1
+            return cnt("mcreate:skipped:tail-half-present")
+    if not created:
+        stats["oom"] += 1
+        return cnt("mcreate:skipped:query-creates-nothing" if lacking else "mcreate:skipped:nothing-to-create")
+    im = impl_run(case, case.get("via", "kw"))
+    stats["n"] += 1
+    cnt("path:mcreate")
+    cnt("rhs:" + mg.kind(r))
+    cnt("mcreate:created-targets:%s" % (len(created) if len(created) < 3 else "3+"))
+    if existing:
+        cnt("mcreate:with-existing-targets")
+    if "oom" in im:
+        stats["oom"] += 1
+        return cnt("mcreate:skipped:oom")
+    desc = "%s <- %s at '%s' under %s" % (show(l), show(r), case["path"], json.dumps(real_cfg(case), sort_keys=True))
+    full = dict(case, impl=im)
+    if "err" in im:
+        if im["err"] == "timeout":
+            return cnt("mcreate:timeout")
+        if im["err"] in ("merge", "ypath", "config"):
+            if existing:
+                return cnt("mcreate:error-with-existing-target")      # the merge into an existing target may be refused (C05)
+            findings.append(("violation", "multi-create:refused-%s" % im["err"], "merge %s raised a %s error; the missing "
+                             "key %s can be created under %d selected mappings" % (desc, im["err"], tail, len(created)), full))
+        else:
+            findings.append(("violation", "%s@%s" % (im["err"], im.get("site", "?")),
+                             "merge %s raised %s at %s" % (desc, im["err"], im.get("site")), full))
+        return None
+    res = im["ok"]
+    cnt("created")
+    stats.setdefault("_nt", set()).add(json.dumps([l, case["path"], r, case.get("cfg")], sort_keys=True))
+    fresh = r
+    for k in reversed(tail[1:]):
+        fresh = mg.M((k, fresh))
+    want = l
+    for a in created:
+        want = set_at(want, list(a) + [("k", tail[0])], fresh)
+    for a in created:
+        ta = a + tuple(("k", k) for k in tail)
+        node = get_at(res, ta)
+        if node is None:
+            findings.append(("violation", "multi-create:created-without-rhs", "merge %s gave %s: nothing stands at the created "
+                             "target %s" % (desc, show(res), seg_path(ta)), full))
+            return None
+        if not mg.content_eq(node, r):
+            if r["k"] == "str" and node["k"] in ("int", "float", "bool"):
+                findings.append(("violation", "scalar-rhs-retyped", "merge %s gave %s: the created target %s holds the re-typed "
+                                 "%s" % (desc, show(res), seg_path(ta), show(node)), full))
+                return None
+            findings.append(("violation", "multi-create:created-is-not-rhs:%s" % mg.kind(r), "merge %s gave %s: the created target "
+                             "%s holds %s, not the right-hand document" % (desc, show(res), seg_path(ta), show(node)), full))
+            return None
+    gm, wm = res, want
+    try:
+        for a in existing:
+            gm, wm = set_at(gm, list(a), MASK), set_at(wm, list(a), MASK)
+    except KeyError:
+        gm = None
+    if gm is None or not mg.content_eq(gm, wm):
+        d = first_diff(gm, wm) if gm is not None else ()
+        findings.append(("violation", "multi-create:outside-changed", "merge %s gave %s: apart from the %d created targets the "
+                         "document must be unchanged; it differs at %s" % (desc, show(res), len(created), seg_path(d or ())), full))
+    return None
+
+
 def _rand_job(job):
     _tag, seed, n = job
     rng = random.Random(seed)
@@ -776,6 +1086,176 @@ def cli_checks(chk, cases):
     chk.count("cli:failed-merges", n_fail)
     chk.count("cli:successful-merges", n_ok)
 
+# --------------------------------------------------------------------------- yaml-merge, multi-document files
+
+MULTIDOC_MODES = ["condense_all", "merge_across", "matrix_merge"]
+
+# (merge path, documents that can take a merge there, documents in which the path matches nothing and cannot be created)
+_S = lambda v: {"k": "str", "v": v}            # noqa: E731
+_I = lambda v: {"k": "int", "v": str(v)}       # noqa: E731
+_M = lambda *e: {"k": "map", "e": [list(x) for x in e]}    # noqa: E731
+_L = lambda *i: {"k": "seq", "i": list(i)}     # noqa: E731
+MULTIDOC_SHAPES = [
+    (["/cfg/sub", "cfg.sub"],
+     [_M(("cfg", _M(("sub", _M(("a", _I(1))))))), _M(("cfg", _M())), _M(("other", _I(1))), _M(("cfg", _M(("sub", _M()))), ("x", _S("y")))],
+     [_M(("cfg", _S("just-a-string"))), _M(("cfg", _I(5)), ("x", _I(1))), _M(("cfg", _M(("sub", _S("text")))))]),
+    (["/a/b/c", "a.b.c"],
+     [_M(("a", _M(("b", _M(("c", _M(("k", _I(1))))))))), _M(("a", _M(("b", _M())))), _M(("z", _L(_I(1))))],
+     [_M(("a", _M(("b", _S("leaf"))))), _M(("a", _S("leaf"))), _M(("a", _M(("b", _M(("c", _I(7)))))))]),
+    (["/svc[name=x]/opts", "svc[name=x].opts"],
+     [_M(("svc", _L(_M(("name", _S("x")), ("opts", _M(("p", _I(1))))), _M(("name", _S("y")))))), _M(("svc", _L(_M(("name", _S("x"))))))],
+     [_M(("svc", _L(_M(("name", _S("y")))))), _M(("svc", _L())), _M(("svc", _M(("name", _S("q")))))]),
+    (["/items[0]/tags", "items[0].tags"],
+     [_M(("items", _L(_M(("tags", _M(("t", _I(1)))))))), _M(("items", _L(_M(("n", _I(1))))))],
+     [_M(("items", _L(_S("scalar")))), _M(("items", _S("none")))]),
+    (["/top[.=~/^zz/]/k", "/**/nowhere[.=1]"],
+     [],
+     [_M(("top", _M(("a", _I(1))))), _M(("k", _L(_I(1), _I(2))))]),
+]
+MULTIDOC_RHS = [_M(("b", _I(2))), _M(("a", _I(9)), ("n", _M(("m", _S("v"))))), _M(("k", _L(_I(1)))), _M()]
+
+
+def multidoc_case(rng):
+    """A yaml-merge run over a multi-document left file in one of the three multi-document modes, at a merge path that
+    (mostly) exactly one of the left documents cannot take: the first, a middle or the last one."""
+    paths, good, bad = rng.choice(MULTIDOC_SHAPES)
+    n = rng.randint(2, 4)
+    r = rng.random()
+    if not good:
+        badpos = list(range(n))
+    elif r < 0.12:
+        badpos = []
+    elif r < 0.9:
+        badpos = [rng.choice([0, n - 1, rng.randrange(n)])]
+    else:
+        badpos = rng.sample(range(n), 2)
+    docs = []
+    for i in range(n):
+        d = json.loads(json.dumps(rng.choice(bad if i in badpos else good)))
+        if rng.random() < 0.5:
+            d["e"].append(["doc", _I(i)])
+        docs.append(d)
+    mode = rng.choice(MULTIDOC_MODES)
+    nr = n if mode == "merge_across" and rng.random() < 0.85 else rng.choice([1, 1, 2])
+    rdocs = [json.loads(json.dumps(rng.choice(MULTIDOC_RHS))) for _ in range(nr)]
+    return {"ldocs": docs, "rdocs": rdocs, "path": rng.choice(paths), "mode": mode, "bad": sorted(badpos),
+            "hashes": rng.choice([None, None, "deep", "left", "right"])}
+
+
+def multidoc_expect(case):
+    """What the library's own Merger says about every constituent merge of the run: the i-th (left, right) pairs for
+    merge_across, every right document into every left document for matrix_merge, documents 2.. of the left file and
+    then every right document into the first one for condense_all (all at the merge path).
+    -> ("ok" | "refused" | None when a merge crashes or times out, the list of per-merge outcomes)"""
+    from yamlpath.merger import Merger
+    extra = {"mergeat": case["path"]}
+    if case.get("hashes"):
+        extra["hashes"] = case["hashes"]
+    mc = mg.make_config({}, "kw", extra_args=extra)
+    L = [Merger(mc.log, codec.json_to_ruamel(d), mc) for d in case["ldocs"]]
+    R = [codec.json_to_ruamel(d) for d in case["rdocs"]]
+    import copy
+    if case["mode"] == "condense_all":
+        pairs = [(L[0], m.data) for m in L[1:]] + [(L[0], r) for r in R]
+    elif case["mode"] == "merge_across":
+        pairs = [(L[i], R[i]) for i in range(min(len(L), len(R)))]
+    else:
+        pairs = [(lm, copy.deepcopy(r)) for lm in L for r in R]
+    outs, dead = [], set()
+    for lm, r in pairs:
+        if id(lm) in dead and case["mode"] != "condense_all":
+            continue            # the tool stops merging into a left document after its first failure
+        res = ed.guarded(lambda: lm.merge_with(r), 5.0)
+        outs.append(res[0])
+        if res[0] != "ok":
+            dead.add(id(lm))
+            if res[0] not in ("merge", "ypath"):
+                return None, outs
+    return ("refused" if any(o != "ok" for o in outs) else "ok"), outs
+
+
+def multidoc_cli_checks(chk, n):
+    """yaml-merge main() over multi-document left files: when the library refuses one of the merges the run is made of
+    (merge path matches nothing and cannot be created in that document), the tool must fail and write no output file -
+    whichever of the left documents it is; when every merge succeeds it must exit 0 and write the file."""
+    import yamlpath.commands.yaml_merge as ym
+    from yamlpath.common import Parsers
+    rng = random.Random(chk.seed * 31 + 11)
+    tmp = tempfile.mkdtemp(prefix="ypv-c11m-")
+    old_argv, old_out, old_err = sys.argv, sys.stdout, sys.stderr
+
+    def write(docs, path):
+        y = Parsers.get_yaml_editor()           # explicit_start: every document is written with its own `---`
+        with open(path, "w") as fh:
+            for d in docs:
+                y.dump(codec.json_to_ruamel(d), fh)
+    try:
+        if chk.replay_in:
+            cases = [n]
+        else:
+            cases = [multidoc_case(rng) for _ in range(n)]
+        for i, case in enumerate(cases):
+            want, outs = multidoc_expect(case)
+            if want is None:
+                chk.count("cli-multidoc:not-judged")
+                continue
+            lf, rf, of = [os.path.join(tmp, "%s%d.yaml" % (nm, i)) for nm in ("l", "r", "o")]
+            write(case["ldocs"], lf)
+            write(case["rdocs"], rf)
+            argv = ["yaml-merge", "-S", "--multi-doc-mode=" + case["mode"], "-m", case["path"], "-o", of]
+            if case.get("hashes"):
+                argv += ["--hashes", case["hashes"]]
+            argv += [lf, rf]
+
+            def go():
+                sys.argv = argv
+                sys.stdout, sys.stderr = io.StringIO(), io.StringIO()
+                try:
+                    ym.main()
+                except SystemExit as e:
+                    return e.code or 0
+                finally:
+                    sys.stdout, sys.stderr = old_out, old_err
+                return 0
+            res = ed.guarded(go, 10.0)
+            chk.evaluations += 1
+            exists = os.path.exists(of)
+            rec = dict(case, argv=argv[:-3] + ["<out>", "<left>", "<right>"], merges=outs)
+            where = ("first" if case["bad"][0] == 0 else "last" if case["bad"][0] == len(case["ldocs"]) - 1 else "middle") \
+                if len(case["bad"]) == 1 else "%d-bad" % len(case["bad"])
+            desc = "yaml-merge --multi-doc-mode=%s -m %s: left file of %d documents %s, right file %s; the library refuses a merge " \
+                   "of this run (%s)" % (case["mode"], case["path"], len(case["ldocs"]), [show(d) for d in case["ldocs"]],
+                                         [show(d) for d in case["rdocs"]], outs)
+            if res[0] != "ok":
+                chk.violation("cli-multidoc:%s@%s" % (res[0], res[1]), "%s raised %s" % (desc, res[0]), rec)
+            elif want == "refused":
+                chk.count("cli-multidoc:refused:%s:%s" % (case["mode"], where))
+                chk.nontrivial_extra += 1
+                if res[1] == 0:
+                    chk.violation("cli-multidoc:accepted:%s:%s" % (case["mode"], where),
+                                  "%s, yet the tool exits 0%s" % (desc, " and writes the output file" if exists else ""), rec)
+                elif exists:
+                    chk.violation("cli-multidoc:output-on-failure:%s" % case["mode"],
+                                  "%s; the tool exits %s and still wrote the output file" % (desc, res[1]), rec)
+            else:
+                chk.count("cli-multidoc:merged:%s" % case["mode"])
+                if res[1] != 0:
+                    chk.disagreements_checked += 1
+                    chk.disagreement("cli-multidoc:exit-differs:%s" % case["mode"],
+                                     "yaml-merge --multi-doc-mode=%s -m %s fails (exit %s) where every library merge of the run "
+                                     "succeeds: %s <- %s" % (case["mode"], case["path"], res[1], [show(d) for d in case["ldocs"]],
+                                                             [show(d) for d in case["rdocs"]]), rec)
+                elif not exists:
+                    chk.violation("cli-multidoc:no-output-on-success:%s" % case["mode"],
+                                  "yaml-merge --multi-doc-mode=%s -m %s exits 0 without writing the output file" % (
+                                      case["mode"], case["path"]), rec)
+            for f in (lf, rf, of):
+                if os.path.exists(f):
+                    os.remove(f)
+    finally:
+        sys.argv, sys.stdout, sys.stderr = old_argv, old_out, old_err
+        shutil.rmtree(tmp, ignore_errors=True)
+
 
 def widen(chk: core.Check):
     """Bigger failing-input search (x5 random budget on fresh seeds), used only when a proof obligation or the
@@ -789,7 +1269,22 @@ def widen(chk: core.Check):
                 chk.violation(sig, what, case)
 
 
+def _gen_job(job):
+    _tag, seed, n = job
+    rng = random.Random(seed)
+    gen = {"MCREATE": mcreate_case, "INTKEY": intkey_case}[_tag]
+    cases = []
+    for _ in range(n):
+        try:
+            cases.append(gen(rng))
+        except (IndexError, KeyError, TypeError, ValueError):
+            continue
+    return run_cases(cases)
+
+
 def _job(job):
+    if job[0] in ("MCREATE", "INTKEY"):
+        return _gen_job(job)
     if job[0] == "EXH":
         return _exh_job(job)
     if job[0] == "RAND":
@@ -804,10 +1299,14 @@ def run(chk: core.Check):
     if chk.replay_in:
         rp = json.load(open(chk.replay_in))
         c = rp.get("case", rp)
+        if "ldocs" in c:
+            multidoc_cli_checks(chk, {k: c[k] for k in ("ldocs", "rdocs", "path", "mode", "bad", "hashes") if k in c})
+            return chk
         if "l" not in c:
             print("replay: nothing to run for", json.dumps(c)[:300])
             return chk
-        case = {k: c[k] for k in ("l", "r", "path", "segs", "cfg", "at", "lrules", "lkeys", "via", "cat") if k in c}
+        case = {k: c[k] for k in ("l", "r", "path", "segs", "cfg", "at", "lrules", "lkeys", "via", "cat", "targets", "prefix", "tail")
+                if k in c}
         case.setdefault("segs", None)
         results = [run_cases([case])]
         im = impl_run(case, case.get("via", "kw"))
@@ -843,6 +1342,11 @@ def run(chk: core.Check):
         nrand = int(os.environ.get("YPV_NRAND") or (160000 if tier == "quick" else 300000))
         per_job = 2000
         jobs += [("RAND", chk.seed * 100003 + i, per_job) for i in range(nrand // per_job)]
+        nmc = int(os.environ.get("YPV_NMC") or (12000 if tier == "quick" else 200000))
+        jobs += [("MCREATE", chk.seed * 100019 + 7 + i, 1000) for i in range(nmc // 1000)]
+        jobs += [("INTKEY", chk.seed * 100043 + 11 + i, 1000) for i in range(nmc // 1000)]
+        chk.extra_cov["multi_creation_cases"] = nmc
+        chk.extra_cov["integer_key_cases"] = nmc
         chk.exhaustive = True
         chk.extra_cov["exhaustive_bound"] = bound
         chk.extra_cov["random_cases"] = nrand
@@ -859,6 +1363,9 @@ def run(chk: core.Check):
                 continue
             ccases.append(c)
         cli_checks(chk, ccases)
+        nmd = 600 if tier == "quick" else 6000
+        multidoc_cli_checks(chk, nmd)
+        chk.extra_cov["multi_document_cli_runs"] = nmd
     for stats, findings, samples, nontrivial, hist in results:
         chk.evaluations += stats["n"]
         chk.out_of_model += stats["oom"]
